@@ -603,3 +603,31 @@ Proof.
     replace (n + N.of_nat (S (length ops1)))%N with (n + 1 + N.of_nat (length ops1))%N by lia.
     exact H2.
 Qed.
+
+(* the suite's guard: a case that run_scase accepts has no negative clock step *)
+Lemma nonneg_advb_ok o : nonneg_advb o = true -> nonneg_adv o.
+Proof.
+  destruct o as [o|]; [|intros _; exact I]. destruct o; cbn; try (intros _; exact I).
+  intros H. apply Z.leb_le. exact H.
+Qed.
+
+Lemma neg_adv_none ops : forall n,
+  neg_adv n ops = None -> Forall (fun p => nonneg_adv (fst p)) ops.
+Proof.
+  induction ops as [|[o seen] ops IH]; intros n H; [constructor|]. cbn [neg_adv] in H.
+  destruct (nonneg_advb o) eqn:E; [|discriminate].
+  constructor; [apply nonneg_advb_ok; exact E|exact (IH _ H)].
+Qed.
+
+Lemma run_scase_none_nonneg p ops :
+  run_scase (p, ops) = None -> Forall (fun q => nonneg_adv (fst q)) ops.
+Proof.
+  destruct p as [[[[mx sm] tl] hdr] groups]. unfold run_scase.
+  destruct (neg_adv 0%N ops) eqn:E; [discriminate|]. intros _. exact (neg_adv_none ops _ E).
+Qed.
+
+Lemma run_scase_none_srun mx sm tl hdr groups ops :
+  run_scase ((mx, sm, tl, hdr, groups), ops) = None ->
+  srun {| qmax := mx; smax := sm; ttl := tl; var := code_variant |} hdr groups
+       {| sh := {| hs := init; hnow := 0; hgate := true; hpend := false |}; snea := tl |} 0%N ops = None.
+Proof. unfold run_scase. destruct (neg_adv 0%N ops); [discriminate|]. intros H; exact H. Qed.
